@@ -29,12 +29,19 @@ StartSets == [atg |-> {Num(0, 3, 2)}, three |-> {Num(0, 3, 2), Num(1, 3, 2), Num
 TableIds == {"std", "syn"}
 StartIds == {"atg", "three", "odd"}
 
-\* index objects for Sequence.__getitem__ on a sequence of length n
-GetIdx(n) == IntIdx((-n - 2)..(n + 1))
+\* the forms in which an index is handed over (all of them in the thorough tier)
+FI == IF Rich THEN IntForms ELSE {"py", "i32", "i64", "u8", "u64"}
+FA == IF Rich THEN ArrForms ELSE {"list", "i64", "u8"}
+FM == MaskForms
+FS == IF Rich THEN SliceForms ELSE {"py"}
+AllForms(X) == Formed(X, FI, FA, FM, FS)
+
+\* index objects for Sequence.__getitem__ on a sequence of length n, in every form
+GetIdx(n) == AllForms(IntIdx((-n - 2)..(n + 1))
         \cup (IF Rich THEN SliceIdx({-4, -1, 0, 1, 2, 5}, {-4, -2, 0, 1, 3, 5}, {-2, -1, 1, 2, 0})
                       ELSE SliceIdx({-1, 1}, {-2, 2, 5}, {-1, 2, 0}))
         \cup MaskIdx(n)
-        \cup ArrIdx((-n - 1)..n, Min2(n, 2))
+        \cup ArrIdx((-n - 1)..n, Min2(n, 2)))
 
 (* ---------------------------------------------------------------- calls per root *)
 \* root "alph": c.alph is the alphabet, c.kind in {"letter", "generic"}
@@ -74,17 +81,63 @@ CallsKmer(b, k) ==
           km \in [1..k -> SeqRange(KBase(b)) \cup {126}] \cup [1..(k - 1) -> {KBase(b)[1]}] \cup [1..(k + 1) -> {KBase(b)[b]}]}
   \cup {<<"kdecode", <<KBase(b), k, n>>>> : n \in -1..Pow(b, k)}
 
+\* root "kbig": c.a = <<b, k>>, any k with b^k <= 2^62; codes in digit form.  Sequences and
+\* k-mers are patterns (constant, ramps, a single leading symbol, alternating, quadratic residues)
+Pats(b, n) ==
+  {[i \in 1..n |-> 0], [i \in 1..n |-> b - 1], [i \in 1..n |-> (i - 1) % b], [i \in 1..n |-> (n - i) % b],
+   [i \in 1..n |-> IF i = 1 THEN b - 1 ELSE 0], [i \in 1..n |-> IF i = 1 THEN 1 ELSE 0],
+   [i \in 1..n |-> IF i % 2 = 1 THEN b - 1 ELSE 0], [i \in 1..n |-> (i * i + 1) % b]}
+Ramp(b, n) == [i \in 1..n |-> (i - 1) % b]
+LetterBase(b) == [i \in 1..b |-> 32 + i]                                   \* b <= 94 printable letters
+BigBases == IF Rich THEN {2, 3, 4, 5, 20, 24, 94, 200, 1000} ELSE {2, 4, 5, 24, 94}
+BigGeoms == {g \in BigBases \X (2..62) : Dom_KmerWidth(g[1], g[2])}
+GapSpacing(k) == <<[j \in 1..k |-> IF j = k THEN k ELSE j - 1]>>         \* offsets 0..k-2 and k
+CallsKbig(b, k) ==
+  LET sps == {<<>>, GapSpacing(k)}
+      seqs == UNION {Pats(b, k + e) : e \in IF Rich THEN {0, 1, 2, 3, 5} ELSE {1, 3}}
+              \cup {Ramp(b, k - 1), Ramp(b, k), [Ramp(b, k + 2) EXCEPT ![k] = b], [Ramp(b, k + 2) EXCEPT ![k + 2] = b + 1]}
+  IN   UNION {{<<"kmers_d", <<b, k, sp, s>>>> : s \in {x \in seqs : Dom_Kmers(b, k, sp, x)}} : sp \in sps}
+  \cup {<<"fuse_d", <<b, k, km>>>> : km \in Pats(b, k) \cup {Ramp(b, k - 1), Ramp(b, k + 1), [Ramp(b, k) EXCEPT ![1] = b + 1],
+                                                             [Ramp(b, k) EXCEPT ![k] = b + 2]}}
+  \cup {<<"split_d", <<b, k, d>>>> : d \in Pats(b, k) \cup {<<1>> \o [i \in 1..k |-> 0]}}
+  \cup (IF b <= 94
+        THEN {<<"kencode_d", <<LetterBase(b), k, [j \in DOMAIN d |-> IF d[j] < b THEN LetterBase(b)[d[j] + 1] ELSE 32]>>>> :
+                d \in Pats(b, k) \cup {Ramp(b, k + 1), [Ramp(b, k) EXCEPT ![k] = b]}}
+          \cup {<<"kdecode_d", <<LetterBase(b), k, d>>>> : d \in Pats(b, k) \cup {<<1>> \o [i \in 1..k |-> 0]}}
+        ELSE {})
+
 \* root "obj": a sequence object
 OtherSeqs(S) ==      \* operands for + and ==: <<alphabet, symbols>>
   LET sy == Symbols(S) IN
   {<<S.alph, sy>>, <<S.alph, <<>>>>, <<S.alph, <<S.alph[1]>>>>, <<S.alph, <<S.alph[Len(S.alph)], S.alph[1]>>>>}
+\* histories derive -> write -> read (SeqCodecOps.Indep): every derive operation, every side,
+\* every position of the written object (and the first position behind it), two symbols
+Derivs(S) ==
+  LET al == S.alph IN
+       {<<"copy", <<>>>>, <<"reverse", <<>>>>}
+  \cup (IF S.kind = "nuc" THEN {<<"complement", <<>>>>} ELSE {})
+  \cup {<<"add", o>> : o \in {<<al, <<>>>>, <<al, <<al[Len(al)]>>>>}
+                             \cup (IF S.kind = "general" THEN {<<al \o <<6>>, <<6>>>>} ELSE {})}
+IndepCalls(S) ==
+  UNION {LET D == Derive(S, d[1], d[2])
+             sides == {"res", "src"} \cup (IF d[1] = "add" THEN {"other"} ELSE {})
+             m(side) == CASE side = "res" -> Len(D.codes) [] side = "src" -> Len(S.codes)
+                          [] side = "other" -> Len(d[2][2])
+         IN UNION {{<<"indep", <<d[1], d[2], side, <<i, s, f>>>>>> :
+                      i \in (-m(side))..m(side), s \in {S.alph[1], S.alph[Len(S.alph)]},
+                      f \in IF Rich THEN {"py", "i64"} ELSE {"py"}}
+                   : side \in sides}
+        : d \in Derivs(S)}
 CallsObj(S) ==
   LET n == Len(S.codes)  al == S.alph  la == Len(S.alph) IN
        {<<"str", <<>>>>, <<"len", <<>>>>, <<"reverse", <<>>>>, <<"copy", <<>>>>, <<"isvalid", <<>>>>}
   \cup {<<"get", <<x>>>> : x \in GetIdx(n)}
-  \cup {<<"setsym", <<i, s>>>> : i \in (-n - 1)..n, s \in {al[1], al[la], IF S.kind = "general" THEN 7 ELSE 64}}
+  \cup {<<"setsym", <<x[2][1], s, x[3]>>>> : x \in AllForms(IntIdx((-n - 1)..n)),
+                                               s \in {al[1], al[la], IF S.kind = "general" THEN 7 ELSE 64}}
   \cup {<<"setmany", <<x, [j \in 1..Len(Resolve(x, n).pos) |-> al[((j + 1) % la) + 1]]>>>> :
-          x \in {y \in SliceIdx({-1, 1}, {2, 5}, {-1, 2}) \cup MaskIdx(n) : Resolve(y, n).ok}}
+          x \in {y \in AllForms(SliceIdx({-1, 1}, {2, 5}, {-1, 2}) \cup MaskIdx(n) \cup ArrIdx((-n)..(n - 1), Min2(n, 2))) :
+                    Resolve(y, n).ok /\ ~HasDup(Resolve(y, n).pos)}}
+  \cup IndepCalls(S)
   \cup {<<"add", o>> : o \in OtherSeqs(S)
                            \cup (IF S.kind = "general" THEN {<<al \o <<6>>, <<6, al[1]>>>>, <<<<al[1]>>, <<al[1]>>>>,
                                                             <<<<6>> \o al, <<6>>>>} ELSE {})}
@@ -117,6 +170,7 @@ Init ==
      \/ \E al \in GenericAlphabets : c = Root("alph", "generic", al, <<>>, <<>>)
      \/ \E s \in SeqsUpToLen(0..3, MaxDna) : c = Root("dna", "none", <<>>, s, <<>>)
      \/ \E g \in KmerGeoms : c = Root("kmer", "none", <<>>, <<>>, g)
+     \/ \E g \in BigGeoms : c = Root("kbig", "none", <<>>, <<>>, g)
      \/ \E o \in Objs : c = Root("obj", o.kind, o.alph, o.codes, <<>>)
      \/ c = Root("tables", "none", <<>>, <<>>, <<>>)
      \/ \E n \in BigSizes : c = Root("big", "none", <<>>, <<>>, <<n>>)
@@ -126,6 +180,7 @@ CallsOf(cc) ==
   CASE cc.fam = "alph" -> CallsAlph(cc.kind, cc.alph)
     [] cc.fam = "dna"  -> CallsDna(cc.codes)
     [] cc.fam = "kmer" -> CallsKmer(cc.a[1], cc.a[2])
+    [] cc.fam = "kbig" -> CallsKbig(cc.a[1], cc.a[2])
     [] cc.fam = "obj"  -> CallsObj(S0)
     [] cc.fam = "tables" -> {<<"table", <<t, st>>>> : t \in TableIds, st \in StartIds}
     \* alphabets whose size sits on the limits of the code widths (uint8 / uint16): the last
@@ -158,8 +213,14 @@ InvConstants == c.fam = "tables" => (Law_Complement /\ Law_Num)
 InvOrfs      == (c.op = "translate" /\ ~c.a[3]) =>
                    Law_Orfs(c.a[1], Tables[c.a[2]], StartSets[c.a[4]], c.a[5])
 InvKmer      == (c.fam = "kmer" /\ c.op = "init") =>
-                   (Law_Kmer(c.a[1], c.a[2]) /\ Law_KmerSymbols(KBase(c.a[1]), c.a[2]))
-InvRolling   == (c.op = "kmers" /\ c.a[3] = <<>>) => Law_Rolling(c.a[1], c.a[2], c.a[4])
+                   (Law_Kmer(c.a[1], c.a[2]) /\ Law_KmerSymbols(KBase(c.a[1]), c.a[2]) /\ Law_Digits(c.a[1], c.a[2]))
+InvRolling   == /\ (c.op = "kmers" /\ c.a[3] = <<>>) => Law_Rolling(c.a[1], c.a[2], c.a[4])
+                /\ c.op = "kmers" => Law_KmersD(c.a[1], c.a[2], c.a[3], c.a[4])
+\* large k: the rolling update on digits yields the windows; digit-form fuse/split are inverse
+InvKbig      == /\ (c.op = "kmers_d" /\ c.a[3] = <<>>) => Law_RollingD(c.a[1], c.a[2], c.a[4])
+                /\ (c.op = "split_d" /\ r.oc = "ok") => FuseD(c.a[1], c.a[2], r.out) = R("ok", c.a[3])
+                /\ (c.op = "kdecode_d" /\ r.oc = "ok") => KEncodeD(c.a[1], c.a[2], r.out) = R("ok", c.a[3])
+                /\ (c.fam = "kbig" /\ c.op = "init") => Dom_KmerWidth(c.a[1], c.a[2])
 \* sequence objects behave like their strings
 Str(x) == Symbols(Seq0(x.kind, x.alph, x.codes))
 InvObject ==
@@ -170,6 +231,13 @@ InvObject ==
                                 /\ Apply(Seq0(r.kind, r.alph, r.codes), "complement", <<>>).codes = S0.codes
       [] c.op = "get" /\ c.a[1][1] # "int" -> Str(r) = PickSeq(Str(S0), Resolve(c.a[1], Len(S0.codes)).pos)
       [] c.op = "setsym" -> Str(r) = [Str(S0) EXCEPT ![WrapOne(c.a[1], Len(S0.codes)) + 1] = c.a[2]]
+      \* a new sequence is independent: only the written object changes, in one position
+      [] c.op = "indep" ->
+           LET d == Derive(S0, c.a[1], c.a[2])  w == c.a[4]  side == c.a[3]
+               put(s) == [s EXCEPT ![WrapOne(w[1], Len(s)) + 1] = w[2]] IN
+           /\ Dom_Indep(S0, c.a)
+           /\ r.out.src = (IF side = "src" THEN put(Str(S0)) ELSE Str(S0))
+           /\ r.out.res = (IF side = "res" THEN put(Str(d)) ELSE Str(d))
       [] OTHER -> TRUE
 InvRefusal == r.oc # "ok" => (r.kind = c.kind /\ r.alph = c.alph /\ r.codes = c.codes)
 =============================================================================
